@@ -180,7 +180,72 @@ class Htk(Cont):
         return out
 
 
-CONTS = [Htk()]
+class Wve(Cont):
+    name, major = "wve", 0x19
+    rates = [1, 8000, 8001, 44100, 2 ** 31 - 1]
+
+    def quant(self, sr):
+        return 8000
+
+    def size_problems(self, j, b, frames):
+        out = []
+        if b[:16] != b"ALawSoundFile**\0" or b[16:18] != b"\x0f\x10" or b[22:32] != bytes(10):
+            out.append("fixed header fields: %s" % b[:32].hex())
+        dl = struct.unpack(">I", b[18:22])[0]
+        if dl != (len(b) - 32) % 2 ** 32:
+            out.append("data length field %d, file holds %d bytes of audio" % (dl, len(b) - 32))
+        return out
+
+    def hdr_len(self, b):
+        return 32
+
+    def mutants(self, b, rng):
+        out = []
+        for v in (0, 1, len(b) - 33, len(b) - 31, 0x7FFFFFFF, 0x80000000, 0xFFFFFFFF):
+            out.append(("datalen=%d" % v, b[:18] + struct.pack(">I", v % 2 ** 32) + b[22:]))
+        out.append(("version", b[:16] + b"\0\1" + b[18:]))
+        return out
+
+
+class Mpc2k(Cont):
+    name, major = "mpc2k", 0x21
+    rates = [1, 2, 8000, 44100, 65535, 65536, 65537, 96000, 131072, 2 ** 31 - 65536, 2 ** 31 - 1]
+    kf_ids = ("KF-RATE16-WRAP",)
+
+    def quant(self, sr):
+        return sr % 65536
+
+    def known(self, j, frames_total, probs):
+        return "KF-RATE16-WRAP" if j.sr % 65536 == 0 else None
+
+    def size_problems(self, j, b, frames):
+        out = []
+        if b[:2] != b"\1\4" or b[19:22] != bytes([100, 0, j.ch - 1]) or b[22:26] != bytes(4) or b[38:40] != b"\0\1":
+            out.append("fixed header fields: %s" % b[:42].hex())
+        a, c, d = struct.unpack("<III", b[26:38])
+        want = ((len(b) - 42) // (2 * j.ch)) % 2 ** 32
+        if (a, c, d) != (want, want, want):
+            out.append("frame count fields %d/%d/%d, file holds %d frames" % (a, c, d, want))
+        if struct.unpack("<H", b[40:42])[0] != j.sr % 65536:
+            out.append("rate field %d for %d Hz" % (struct.unpack("<H", b[40:42])[0], j.sr))
+        return out
+
+    def hdr_len(self, b):
+        return 42
+
+    def mutants(self, b, rng):
+        out = []
+        for v in (0, 1, 2, 3, 0x80, 0xFF):
+            out.append(("stereo=%d" % v, b[:21] + bytes([v]) + b[22:]))
+        for v in (0, 1, 0xFFFF):
+            out.append(("rate=%d" % v, b[:40] + struct.pack("<H", v) + b[42:]))
+        out.append(("frames=rnd", b[:26] + bytes(rng.randrange(256) for _ in range(12)) + b[38:]))
+        out.append(("odd-tail", b + b"\1"))
+        out.append(("name", b[:2] + b"sample name here!" + b[19:]))
+        return out
+
+
+CONTS = [Htk(), Wve(), Mpc2k()]
 
 
 # ---------------------------------------------------------------- sessions
